@@ -6,7 +6,7 @@ for d in seeded/*/; do
   prop=$(echo $id | sed 's/^unfix-//; s/b$//')
   props="$prop"
   [ "$id" = "unfix-C05" ] && props="C05 C08"
-  out=$(tools/seedtest.sh $d/patch.diff $props 2>&1 | grep -E "^(VIOLATION|UNDECIDED|OK|KNOWN-FINDING|  obligation|rc\()" | cut -c1-300)
+  out=$(tools/seedtest.sh $d/patch.diff $props 2>&1 | grep -E "^(VIOLATION|UNDECIDED|OK|KNOWN-FINDING|WARNING|  obligation|rc\()" | cut -c1-300)
   echo "$out" > $d/check_result.txt
   echo "== $id"; echo "$out" | grep -E "^(VIOLATION|UNDECIDED|OK|rc)" | head -6
 done
